@@ -701,7 +701,7 @@ def pending_ai_files(sim, head):
     out = set()
     try:
         ini = json.load(open(os.path.join(d, "INITIAL"))).get("files", {})
-        out |= {f for f, ls in ini.items() if ls}
+        out |= {f for f, ls in ini.items() if any(la.get("author_id") != "human" for la in ls)}
     except Exception:
         pass
     try:
@@ -709,7 +709,9 @@ def pending_ai_files(sim, head):
             if line.strip():
                 cp = json.loads(line)
                 if cp.get("kind") != "Human":
-                    out |= {e["file"] for e in cp.get("entries", [])}
+                    # only entries that claim lines for an agent (a pure deletion claims none)
+                    out |= {e["file"] for e in cp.get("entries", [])
+                            if any(la.get("author_id") != "human" for la in e.get("line_attributions", []))}
     except Exception:
         pass
     return sorted(out)
